@@ -6979,6 +6979,18 @@ ZSTD_compressSequences_internal(ZSTD_CCtx* cctx,
         DEBUGLOG(5, "cSize running total: %zu (remaining dstCapacity=%zu)", cSize, dstCapacity);
     }
 
+    /* With explicit delimiters the block lengths must add up to the source :
+     * whatever is left over once the source is consumed can only be empty blocks. */
+    if (cctx->appliedParams.validateSequences
+     && cctx->appliedParams.blockDelimiters == ZSTD_sf_explicitBlockDelimiters) {
+        size_t idx;
+        for (idx = seqPos.idx; idx < inSeqsSize; idx++) {
+            RETURN_ERROR_IF(inSeqs[idx].litLength != 0 || inSeqs[idx].matchLength != 0,
+                            externalSequences_invalid,
+                            "Sequences describe more data than the source holds");
+        }
+    }
+
     DEBUGLOG(4, "cSize final total: %zu", cSize);
     return cSize;
 }
